@@ -748,7 +748,7 @@ def put_path_bond(
     iterator indicates whether the identity or iterator aspect should
     be used.
     '''
-    stmt.path_bonds.add((path_id, iterator))
+    stmt.path_bonds[(path_id, iterator)] = None
 
 
 def put_rvar_path_bond(
